@@ -88,3 +88,8 @@ claim("C17",
  "Trusted: as C01 for the event part; the pairing rules are specific to jp.MatchHandler (located through its public TokenHandler method names).",
  "static analysis: call-count / dominance rules on the handler's helpers, existential-loop lint, scope lint, product event synchrony for the tokenizer",
  "DESIGN.md §4 C17")
+claim("C18",
+ "Static decision of the deep-copy discipline and sibling parity of the conversion family: copying arms/methods return a container allocated on every path, store elements only through copying calls, never use unsafe; every kind the decomposing switch handles is handled by Generify; the pretty builders for gen and simple containers are identical copies; gen.Parser and oj.Parser emit the reference's value events (structural part of 'gen.Parser equals Generify of oj.Parser'). Value preservation and text equality are not decided.",
+ "Trusted: go/types; the copying functions are located through the public names Dup, Decompose, Generify, Simplify; Alter/GenAlter are exempt (documented in-place).",
+ "static analysis: path-sensitive must-assignment of the result from a fresh allocation, element-store lint, twin-body comparison, kind-switch parity, product event synchrony",
+ "DESIGN.md §4 C18")
